@@ -18,16 +18,22 @@ using std::vector;
 // ---- what a field / message / condition is, as the CSV author sees it ---------------------------
 struct FieldDef {
   char kind;    // 'N' numeric 1 byte (UCH), 'W' numeric 2 bytes (UIN), 'S' string of 2 characters (STR:2),
-                // scan message only: 'P' numeric BCD 2 bytes (PIN), '5' string of 5 characters (STR:5)
+                // scan message only: 'P' numeric BCD 2 bytes (PIN), '5' string of 5 characters (STR:5),
+                // 'i' / 'j' ignored filler of 1 / 2 bytes (IGN:1, IGN:2; no name, not a field for the CSV author)
   string name;
   bool numeric() const { return kind == 'N' || kind == 'W' || kind == 'P'; }
+  bool ignored() const { return kind == 'i' || kind == 'j'; }
 };
 
 struct MsgDef {
   string name;             // message name in circuit "c"; empty for the scan message of address 08
   string idHex;            // PBSB+ID
   vector<FieldDef> fields;
+  char part = 's';         // 's' active read message, fields in the slave part; 'm' active read message, fields in the
+                           // master part; 'u' passive write message (uw), fields in the master part
   bool scan() const { return name.empty(); }
+  size_t realFields() const { size_t n = 0; for (const FieldDef& f : fields) if (!f.ignored()) n++; return n; }
+  bool hasFiller() const { return realFields() != fields.size(); }
 };
 
 // one stored value per field: numeric value or string
@@ -76,13 +82,16 @@ inline int refResolvable(const Config& c, const Part& p, int* targetField) {
   if (p.kind == CK_SEEN) return p.fieldRef.empty() ? 1 : -1;
   bool wantNumeric = p.kind == CK_NUM;
   if (p.fieldRef.empty()) {
-    if (m.fields.empty()) return 0;
-    if (m.fields[0].numeric() != wantNumeric) return -1;  // "a first field of the required kind": open
-    *targetField = 0;
+    // an ignored filler is not a field: "a first field" is the first one that is not ignored
+    size_t first = 0;
+    while (first < m.fields.size() && m.fields[first].ignored()) first++;
+    if (first >= m.fields.size()) return 0;
+    if (m.fields[first].numeric() != wantNumeric) return -1;  // "a first field of the required kind": open
+    *targetField = static_cast<int>(first);
     return 1;
   }
   for (size_t i = 0; i < m.fields.size(); i++) {
-    if (m.fields[i].name == p.fieldRef) {
+    if (!m.fields[i].ignored() && m.fields[i].name == p.fieldRef) {
       if (m.fields[i].numeric() != wantNumeric) return 0;
       *targetField = static_cast<int>(i);
       return 1;
@@ -158,7 +167,7 @@ inline vector<ValueVector> rotatedVectors(const MsgDef& m, int target) {
     for (size_t i = 0; i < m.fields.size(); i++) {
       int rot = (j + static_cast<int>(i) - target + 8) % 4;
       Value v;
-      if (m.fields[i].numeric()) v.num = NUMS[rot];
+      if (m.fields[i].numeric() || m.fields[i].ignored()) v.num = NUMS[rot];  // filler: first byte = rotated value, rest 00
       else v.str = m.fields[i].kind == '5' ? STRS5[rot] : STRS[rot];
       vv.push_back(v);
     }
@@ -167,16 +176,27 @@ inline vector<ValueVector> rotatedVectors(const MsgDef& m, int target) {
   return out;
 }
 
-inline MsgDef makeMsg(const string& name, const string& idHex, const string& layout) {
+inline MsgDef makeMsg(const string& name, const string& idHex, const string& layout, char part = 's') {
   MsgDef m;
   m.name = name;
   m.idHex = idHex;
+  m.part = part;
   for (size_t i = 0; i < layout.size(); i++) {
     char b[8];
     snprintf(b, sizeof(b), "f%zu", i);
-    m.fields.push_back({layout[i], b});
+    bool ign = layout[i] == 'i' || layout[i] == 'j';
+    m.fields.push_back({layout[i], ign ? string() : string(b)});
   }
   return m;
+}
+inline bool validLayout(const string& lay, const string& part) {
+  if (lay.empty() || lay.size() > 4 || (part != "s" && part != "m" && part != "u")) return false;
+  bool real = false;
+  for (char ch : lay) {
+    if (ch != 'N' && ch != 'W' && ch != 'S' && ch != 'i' && ch != 'j') return false;
+    if (ch != 'i' && ch != 'j') real = true;
+  }
+  return real;
 }
 inline MsgDef makeScanMsg() {
   MsgDef m;
@@ -191,7 +211,8 @@ inline bool applyRef(Config* c, Part* p, const string& ref) {
   if (ref == "u") { p->fieldRef = ""; return true; }
   if (ref == "x") { p->fieldRef = "zz"; return true; }
   if (ref == "nomsg") { p->msg = -1; p->fieldRef = ""; return true; }
-  if (ref.size() == 2 && ref[0] == 'n' && ref[1] >= '0' && static_cast<size_t>(ref[1] - '0') < m.fields.size()) {
+  if (ref.size() == 2 && ref[0] == 'n' && ref[1] >= '0' && static_cast<size_t>(ref[1] - '0') < m.fields.size() &&
+      !m.fields[static_cast<size_t>(ref[1] - '0')].ignored()) {
     p->fieldRef = m.fields[static_cast<size_t>(ref[1] - '0')].name;
     return true;
   }
@@ -204,11 +225,11 @@ inline Config makeConfig(const string& desc) {
   c.desc = desc;
   auto kv = vp::parseCase(desc);
   c.family = kv["fam"];
-  string lay = kv["lay"], shape = kv["shape"], ref = kv["ref"];
+  string lay = kv["lay"], shape = kv["shape"], ref = kv["ref"], part = kv.count("part") ? kv["part"] : string("s");
   if (c.family == "simple" || c.family == "alt") {
     const Shape* s = findShape(shape);
-    if (!s || lay.empty() || lay.size() > 3) return c;
-    c.msgs.push_back(makeMsg("ref", "b5090d0000", lay));
+    if (!s || !validLayout(lay, part)) return c;
+    c.msgs.push_back(makeMsg("ref", "b5090d0000", lay, part[0]));
     Part p;
     p.condName = p.defName = "k";
     p.msg = 0;
@@ -247,14 +268,17 @@ inline Config makeConfig(const string& desc) {
     p2.condName = p2.defName = "k2";
     applyShape(&p1, *s1, false);
     applyShape(&p2, *s2, false);
-    if (var == "same") {
-      c.msgs.push_back(makeMsg("ref", "b5090d0000", string(1, s1->kind == CK_STR ? 'S' : 'N') + string(1, s2->kind == CK_STR ? 'S' : 'N')));
+    if (var == "same" || var == "samei") {
+      // samei: a filler between the two judged fields (its byte takes a value that satisfies neither part where possible)
+      bool filler = var == "samei";
+      c.msgs.push_back(makeMsg("ref", "b5090d0000", string(1, s1->kind == CK_STR ? 'S' : 'N') + (filler ? "i" : "") + string(1, s2->kind == CK_STR ? 'S' : 'N')));
+      size_t i2 = filler ? 2 : 1;
       p1.msg = 0; p2.msg = 0;
-      p1.fieldRef = "f0"; p2.fieldRef = "f1";
+      p1.fieldRef = "f0"; p2.fieldRef = filler ? "f2" : "f1";
       // all four combinations of (satisfying, not satisfying) for the two fields
       vector<ValueVector> vv;
       for (int a = 0; a < 2; a++) for (int b = 0; b < 2; b++) {
-        ValueVector v(2);
+        ValueVector v(i2 + 1);
         // alphabet index 0 satisfies every shape that lists value 1 / "ab"; pick per shape
         auto pick = [&](const Part& p, bool sat) {
           Value x;
@@ -263,18 +287,22 @@ inline Config makeConfig(const string& desc) {
           return x;
         };
         v[0] = pick(p1, a == 0);
-        v[1] = pick(p2, b == 0);
+        v[i2] = pick(p2, b == 0);
+        if (filler) v[1].num = p2.kind == CK_NUM ? pick(p2, b != 0).num : 4;  // opposite verdict of the field behind it
         vv.push_back(v);
       }
       c.values.push_back(vv);
-    } else if (var == "two") {
-      c.msgs.push_back(makeMsg("ref", "b5090d0000", string(1, s1->kind == CK_STR ? 'S' : 'N')));
-      c.msgs.push_back(makeMsg("ref2", "b5090d0001", string(1, s2->kind == CK_STR ? 'S' : 'N')));
+    } else if (var == "two" || var == "twoi") {
+      // twoi: both referenced messages start with a 2-byte filler
+      bool filler = var == "twoi";
+      size_t fi = filler ? 1 : 0;
+      c.msgs.push_back(makeMsg("ref", "b5090d0000", string(filler ? "j" : "") + string(1, s1->kind == CK_STR ? 'S' : 'N')));
+      c.msgs.push_back(makeMsg("ref2", "b5090d0001", string(filler ? "j" : "") + string(1, s2->kind == CK_STR ? 'S' : 'N')));
       p1.msg = 0; p2.msg = 1;
-      p1.fieldRef = p1.kind == CK_SEEN ? "" : "f0";
-      p2.fieldRef = p2.kind == CK_SEEN ? "" : "f0";
-      c.values.push_back(rotatedVectors(c.msgs[0], 0));
-      c.values.push_back(rotatedVectors(c.msgs[1], 0));
+      p1.fieldRef = p1.kind == CK_SEEN ? "" : (filler ? "f1" : "f0");
+      p2.fieldRef = p2.kind == CK_SEEN ? "" : (filler ? "f1" : "f0");
+      c.values.push_back(rotatedVectors(c.msgs[0], static_cast<int>(fi)));
+      c.values.push_back(rotatedVectors(c.msgs[1], static_cast<int>(fi)));
       // two values per message are enough here (one satisfying, one not): keep the search small
       for (size_t m = 0; m < 2; m++) {
         const Part& p = m == 0 ? p1 : p2;
@@ -282,7 +310,7 @@ inline Config makeConfig(const string& desc) {
         bool haveT = false, haveF = false;
         for (const ValueVector& v : c.values[m]) {
           if (p.kind == CK_SEEN) { if (keep.size() < 2) keep.push_back(v); continue; }
-          bool sat = p.kind == CK_STR ? p.strTrue.count(v[0].str) > 0 : p.numTrue.count(v[0].num) > 0;
+          bool sat = p.kind == CK_STR ? p.strTrue.count(v[fi].str) > 0 : p.numTrue.count(v[fi].num) > 0;
           if (sat && !haveT) { keep.push_back(v); haveT = true; }
           if (!sat && !haveF) { keep.push_back(v); haveF = true; }
         }
@@ -298,8 +326,8 @@ inline Config makeConfig(const string& desc) {
     // base=list: "*[k],c,ref,,f,,1;3"; base=seen: "*[k],c,ref,,f" ; the guard uses [k<op><values>]
     const Shape* s = findShape(shape);
     string base = kv["base"];
-    if (!s || s->kind == CK_SEEN || lay.empty() || lay.size() > 3) return c;
-    c.msgs.push_back(makeMsg("ref", "b5090d0000", lay));
+    if (!s || s->kind == CK_SEEN || !validLayout(lay, part)) return c;
+    c.msgs.push_back(makeMsg("ref", "b5090d0000", lay, part[0]));
     Part p;
     p.msg = 0;
     p.derived = true;
@@ -338,10 +366,12 @@ inline Config makeConfig(const string& desc) {
 inline string fieldClass(const Config& c, const Part& p) {
   if (p.msg < 0) return "nomsg";
   const MsgDef& m = c.msgs[static_cast<size_t>(p.msg)];
-  string n = m.fields.size() > 1 ? "-multi" : "-single";
+  string n = m.realFields() > 1 ? "-multi" : "-single";
+  if (m.hasFiller()) n += "-ign";                 // layout with ignored filler bytes
+  if (m.part != 's') n += string("@") + m.part;   // value in the master part (active read / passive write)
   if (p.fieldRef.empty()) return "unnamed" + n;
   for (const FieldDef& f : m.fields) {
-    if (f.name == p.fieldRef) {
+    if (!f.ignored() && f.name == p.fieldRef) {
       if (p.kind == CK_SEEN) return "named" + n;
       return (f.numeric() == (p.kind == CK_NUM) ? "named" : "wrongkind") + n;
     }
@@ -388,6 +418,47 @@ inline vector<string> enumerate(bool thorough) {
         refs.push_back("x");
       }
       for (const string& r : refs) out.push_back("fam=simple;lay=" + lay + ";shape=" + s.name + ";ref=" + r);
+    }
+  }
+  // layouts with ignored filler bytes before / between / after the fields, and fields in the master part
+  {
+    struct FL { const char* lay; const char* part; };
+    vector<FL> fls = {
+      {"iN", "s"}, {"jN", "s"}, {"iS", "s"}, {"jS", "s"}, {"Ni", "s"}, {"Sj", "s"}, {"NiN", "s"}, {"NjS", "s"}, {"SiN", "s"},
+      {"iNS", "s"}, {"jSN", "s"},
+      {"N", "m"}, {"NS", "m"}, {"iN", "m"}, {"jN", "m"}, {"jS", "m"}, {"NiN", "m"},
+      {"N", "u"}, {"iN", "u"}, {"jN", "u"}, {"jS", "u"}, {"NiN", "u"}, {"Ni", "u"},
+    };
+    if (thorough) {
+      for (FL f : vector<FL>{{"iW", "s"}, {"jW", "s"}, {"WiN", "s"}, {"NjW", "s"}, {"Wi", "s"}, {"iNiN", "s"}, {"jNjS", "s"}, {"ijN", "s"},
+                             {"jW", "m"}, {"SiN", "m"}, {"iNS", "m"}, {"jW", "u"}, {"SjN", "u"}, {"iSN", "u"}}) fls.push_back(f);
+    }
+    for (const FL& f : fls) {
+      string lay = f.lay;
+      size_t first = 0;
+      while (lay[first] == 'i' || lay[first] == 'j') first++;
+      for (const Shape& s : shapes()) {
+        vector<string> refs;
+        if (s.kind == CK_SEEN) {
+          refs = {"u"};
+        } else {
+          for (size_t i = 0; i < lay.size(); i++) if (lay[i] != 'i' && lay[i] != 'j') { char b[8]; snprintf(b, sizeof(b), "n%zu", i); refs.push_back(b); }
+          if ((lay[first] != 'S') == (s.kind == CK_NUM)) refs.push_back("u");
+          refs.push_back("x");
+        }
+        for (const string& r : refs) out.push_back("fam=simple;lay=" + lay + ";part=" + f.part + ";shape=" + s.name + ";ref=" + r);
+      }
+    }
+    for (const char* s : {"list", "lt"}) for (FL f : vector<FL>{{"iN", "s"}, {"jN", "m"}}) out.push_back(string("fam=alt;lay=") + f.lay + ";part=" + f.part + ";shape=" + s + ";ref=n1");
+    for (const char* base : {"list", "seen"}) for (const char* s : {"list", "range", "lt", "ge"}) for (FL f : vector<FL>{{"iN", "s"}, {"NjN", "s"}, {"jN", "u"}}) {
+      string lay = f.lay;
+      char b[8];
+      snprintf(b, sizeof(b), "n%zu", lay.size() - 1);
+      out.push_back(string("fam=derived;base=") + base + ";lay=" + lay + ";part=" + f.part + ";shape=" + s + ";ref=" + b);
+    }
+    for (const char* s : {"string", "strlist"}) out.push_back(string("fam=derived;base=seen;lay=jS;shape=") + s + ";ref=n1");
+    for (const char* var : {"samei", "twoi"}) for (const char* s1 : {"list", "ge", "string"}) for (const char* s2 : {"range", "lt", "strlist"}) {
+      out.push_back(string("fam=and;var=") + var + ";s1=" + s1 + ";s2=" + s2);
     }
   }
   for (const char* s : {"list", "string", "seen"}) out.push_back(string("fam=simple;lay=N;shape=") + s + ";ref=nomsg");
